@@ -3,7 +3,7 @@ ENGINES = [
      'kind_free_text': 'rustc_private driver dumping type-checked MIR (resolved callees, field names, evaluated constants, statics, promoted bodies) as JSON; injected with RUSTC_WORKSPACE_WRAPPER under cargo +nightly check on the current working tree'},
     {'name': 'E1 call graph + effects', 'path': 'analysis/facts.py analysis/effects.py', 'serves_properties': ['C16', 'C17'],
      'kind_free_text': 'whole-crate call graph (fn items as values and closures are edges, CHA for unresolved trait calls) and transitive effect sets'},
-    {'name': 'E2 event automata', 'path': 'analysis/cfg.py analysis/pkt.py', 'serves_properties': ['C03', 'C08'],
+    {'name': 'E2 event automata', 'path': 'analysis/cfg.py analysis/pkt.py', 'serves_properties': ['C03', 'C08', 'C10', 'C11'],
      'kind_free_text': 'forward data-flow of (automaton state, known enum variants) over the MIR CFG with per-callee summaries; keeps Ok/Err outcomes apart until the ? has branched'},
 ]
 NOTES = ('Static analysis only: no registered check executes dnssector code or calls a solver. Each ./check re-extracts MIR facts from '
@@ -55,5 +55,25 @@ CHECKS['C08'] = {
              '(e) RRIterator::recompute derives offset_next per section exactly as the iterator of that section does; (f) re-parse writers copy all five offsets from same-named fields, compare the EDNS summaries and install the parsed bytes; '
              '(g) no operation returns Ok with the packet taken out. These are necessary conditions of "object view == fresh parse"; the equality itself over arbitrary operation sequences is a run-time relation and is NOT decided.'),
     'note': 'Structural clauses only. Known unclaimed corner: in-place decompression under an EDNS-option cursor (D19, DESIGN.md section 5). Trusted: rustc MIR, the rule engines.',
+}
+CHECKS['C10'] = {
+    'engine': 'E2 event automata', 'level': 'other',
+    'technique': 'path-sensitive check-before-modify / ordering automata on the MIR CFG with packet-buffer provenance',
+    'design_ref': 'DESIGN.md section 4, C10',
+    'text': ('Decides for all paths through the mutating operations: (a) no path reaches an Err return after a destructive event (packet replaced by anything but decompressor output, packet taken, buffer length change, '
+             'packet/header/count bytes overwritten, offset or summary field stored), with three listed one-call exceptions; (b) in insert_rr every buffer growth is preceded, on every path, by a comparison against '
+             'DNS_MAX_UNCOMPRESSED_SIZE (= 8192) made after the last replacement of the packet, i.e. on the buffer that is spliced; (c) the tombstone test (and in set_raw_name the name validation) precedes every destructive event. '
+             'The arithmetic side of the limit (no wrap-around in the comparison) is left to the E4 rule when built; run-time equality "still decodes to the same message" is NOT decided.'),
+    'note': 'Exceptions in tables/exceptions.json (printed in evidence; stale ones are reported). Trusted: rustc MIR, rule engines.',
+}
+CHECKS['C11'] = {
+    'engine': 'E2 event automata', 'level': 'other',
+    'technique': 'protocol automaton over every successful path of delete + dominance checks in the iterators',
+    'design_ref': 'DESIGN.md section 4, C11',
+    'text': ('Decides: (a) on every successful path of TypedIterable::delete (both instantiations): section computed before the splice, exactly one resize_rr by -(offset_next - offset), set_offset_next(offset), invalidate, '
+             'exactly one rrcount_dec of the section obtained from current_section, and the start offset of that very section is cleared exactly under the count <= 0 test; (b) in every next*: the unwrap of the section start is dominated by '
+             'the count == 0 -> None test on the current header count and rrs_left is re-initialised only under offset.is_none(); (c) advances and rrs_left decrements are paired on all paths (termination measure). '
+             'Which records are yielded/survive for every deletion pattern is a run-time sequence property and is NOT decided.'),
+    'note': 'Structural clauses only. Trusted: rustc MIR, rule engines.',
 }
 NOT_APPLICABLE = {('C%02d' % i): PENDING for i in range(1, 19) if ('C%02d' % i) not in CHECKS}
